@@ -268,6 +268,8 @@ def write_evidence(prop, tier, seed, sel, results, obligations, failed, undecide
             assumed.append(f"{u['id']}: {a}")
         if u.get("bounded"):
             bounded[u["id"]] = u["bounded"]
+        if u.get("ignore_dealloc_model"):
+            assumed.append(f"{u['id']}: Kani's __rust_dealloc model assertions excluded from no-panic (kani 0.68 models some empty Vecs with capacity 1; crate forbids unsafe code)")
         if u["engine"] == "kani":
             files.append(os.path.join(VERIF, "contracts", "kani", u["modfile"]))
             trusted.update(["kani 0.68 / cbmc 6.11 (bit-precise; dev profile)", "rustc MIR -> goto translation",
